@@ -957,10 +957,29 @@ func Parse(in io.Reader, filename string, mode py.CompileMode) (mod ast.Mod, err
 	}()
 	yyParse(lex)
 	err = lex.ErrorReturn()
+	if err == nil && lex.interactive && lex.trailingInput() {
+		lex.SyntaxError("multiple statements found while compiling a single statement")
+		err = lex.ErrorReturn()
+	}
 	if err != nil {
 		err = py.MakeSyntaxError(err, filename, lex.pos.Lineno, lex.pos.ColOffset, lex.lastLine)
 	}
 	return lex.mod, err
+}
+
+// trailingInput reports whether anything but white space and comments
+// follows the statement that was just parsed in "single" mode
+func (x *yyLex) trailingInput() bool {
+	for {
+		rest := strings.TrimSpace(x.line)
+		if rest != "" && rest[0] != '#' {
+			return true
+		}
+		if x.eof {
+			return false
+		}
+		x.refill()
+	}
 }
 
 // Parse a string
